@@ -53,9 +53,17 @@ def gen_font(rng, n):
     kinds = ["rect", "tri", "poly", "poly", "grid", "two", "L", "empty"]
     for i in range(2, n):
         k = rng.choice(kinds)
-        if k == "comp" or (i > 6 and rng.random() < 0.15):
+        if k == "comp" or (i > 6 and rng.random() < 0.25):
             a, b = (rng.sample(range(2, i), 2) if rng.random() < 0.8 else [rng.randint(2, i - 1)] * 2)
-            if "components" in glyphs[a] or "components" in glyphs[b] or not glyphs[a].get("contours") or not glyphs[b].get("contours"):
+            def leaves(j):
+                return [x for (c, _dx, _dy) in glyphs[j]["components"] for x in leaves(c)] if "components" in glyphs[j] else [j]
+            nested_ok = (a != b and "components" in glyphs[a] and "components" not in glyphs[b] and glyphs[b].get("contours")
+                         and all("components" not in glyphs[c] for (c, _x, _y) in glyphs[a]["components"]) and b not in leaves(a)
+                         and len(set(leaves(a))) == len(leaves(a)))
+            if nested_ok:
+                # a composite one of whose components is itself a composite (component depth 2)
+                g = {"name": "g%d" % i, "adv": 700, "components": [(a, rng.randint(-50, 50), 0), (b, rng.randint(-100, 400), rng.randint(-100, 400))]}
+            elif "components" in glyphs[a] or "components" in glyphs[b] or not glyphs[a].get("contours") or not glyphs[b].get("contours"):
                 g = {"name": "g%d" % i, "adv": 500, "contours": rand_outline(rng, "rect")}
             else:
                 g = {"name": "g%d" % i, "adv": 700, "components": [(a, 0, 0), (b, rng.randint(-100, 400), rng.randint(-100, 400))]}
@@ -137,7 +145,7 @@ def run(tier, seed, replay=None):
         "known_uncovered_points": stats["known_uncovered_points"], "known_truncation_slack_points": stats["known_truncation_slack_points"],
         "traces_validated_against_impl": stats["fonts"], "disagreements_checked": len(rep.violations),
         "evaluations": stats["fonts"], "distinct_nontrivial": len(distinct),
-        "rule": "fonts of 12-30 glyphs with rectangles, triangles, random polygons (on/off-curve points), points exactly on cell borders, L shapes, two-contour glyphs, composites and outline-less glyphs; a random subset marked collision.complexFit; distinct = distinct checker summaries",
+        "rule": "fonts of 12-30 glyphs with rectangles, triangles, random polygons (on/off-curve points), points exactly on cell borders, L shapes, two-contour glyphs, composites (also with a composite as a component) and outline-less glyphs; a random subset marked collision.complexFit; distinct = distinct checker summaries",
         "samples": samples, "exhaustive": False,
     })
     rep.assumptions += ["'outline point' = a point of the glyf outline (on- or off-curve control point), as the code's own comment says; curve interiors are not considered",
